@@ -650,6 +650,12 @@ class Evaluator:
         base = self.ev(node.value, st)
         if type(base).__name__ == 'VMat' and isinstance(node.slice, ast.Tuple):
             return self.mat_subscript_ast(base, node.slice, st, node)
+        if isinstance(base, VList) and isinstance(node.slice, ast.Tuple) and len(node.slice.elts) == 2 and isinstance(node.slice.elts[0], ast.Slice) \
+                and isinstance(node.slice.elts[1], ast.Constant) and node.slice.elts[1].value is Ellipsis:
+            # x[a:b, ...]: the trailing Ellipsis selects everything in the remaining dimensions = x[a:b]
+            e0 = node.slice.elts[0]
+            sl0 = VSlice(*[self.ev(x, st) if x is not None else VNone() for x in (e0.lower, e0.upper, e0.step)])
+            return self.subscript(base, sl0, st, node)
         if isinstance(base, VFunc) and base.kind == 'module' and base.name == 'np.r_' and isinstance(node.slice, ast.Tuple):
             # np.r_[a, b, ...]: concatenation of 1-D arrays and scalars
             cur = None
